@@ -494,6 +494,12 @@ func (e *Engine) Run(t *core.Tape, cfg *core.Config, st *core.Stats) (viol *core
 					v = do(desc+"  -- read-only handle", code, expect{soft: true})
 					break
 				}
+				if t.Choose(8) == 0 {
+					// the same write through the default output file
+					desc = fmt.Sprintf("io.output(%s); io.write(%d part(s), %d bytes) at %d", h.name, np, len(bytes.Join(parts, nil)), h.pos)
+					code = fmt.Sprintf("io.output(%s); return enc(io.write(%s))", h.name, strings.Join(args, ", "))
+					st.Probe("write_through_default_output")
+				}
 				all := bytes.Join(parts, nil)
 				nwrites++
 				if h.full {
@@ -542,6 +548,12 @@ func (e *Engine) Run(t *core.Tape, cfg *core.Config, st *core.Stats) (viol *core
 					n := []int{0, 1, 2, 10, 100, 4095, 4096, 4097, 10000}[t.Choose(9)]
 					desc = fmt.Sprintf("%s:read(%d) at %d of %d", h.name, n, h.pos, len(h.f.data))
 					code = fmt.Sprintf("return enc(%s:read(%d))", h.name, n)
+					if t.Choose(8) == 0 {
+						// the same read through the default input file
+						desc = fmt.Sprintf("io.input(%s); io.read(%d) at %d of %d", h.name, n, h.pos, len(h.f.data))
+						code = fmt.Sprintf("io.input(%s); return enc(io.read(%d))", h.name, n)
+						st.Probe("read_through_default_input")
+					}
 					if n == 0 {
 						if h.pos >= len(h.f.data) {
 							ex = expect{vals: []string{"N"}}
